@@ -55,6 +55,11 @@ def has(*facts, why, props=("C01",), known=None):
     return Ob(tuple(facts), why, "all", {}, "has", props, known)
 
 
+def count(callname, n, why, props=("C01",), known=None):
+    """at least n syntactic call sites of `callname` in the primitive"""
+    return Ob((f"call:{callname}",), why, n, {}, "count", props, known)
+
+
 def post1(*facts, why, assume=None, props=("C01", "C04"), known=None):
     """must be called on a tree that already contains the (first) edit"""
     return Ob(tuple(facts), why, "all", assume or {}, "post1", props, known)
@@ -132,7 +137,7 @@ TABLE: Dict[str, List[Ob]] = {
     "DoUnrollBuffer": [pre("guard:.Const", why="the unrolled dimension must be a literal")],
     "DoLiftAllocSimple": [has("guard:szvars", why="the allocation size must not depend on crossed iterators")],
     "DoSinkAlloc": [
-        pre("guard:accesses", why="the buffer must not be used after the scope"),
+        pre("guard:accesses", why="the buffer must not be used after the scope", props=("C01", "C04")),
         pre("call:Check_IsDeadAfter", "call:Check_DefBeforeUse", "guard:reads_before_writes", why="each iteration must define what it reads (values must not flow between iterations)", known="D17", props=("C01", "C04")),
     ],
     "DoDeleteBuffer": [pre("call:Check_IsDeadAfter", why="the buffer must be dead")],
@@ -158,7 +163,7 @@ TABLE: Dict[str, List[Ob]] = {
     "DoSpecialize": [
         pre("guard:are_allocs_used_after_block", why="allocations of the block must not be used after it", props=("C04",)),
         has("guard:is_valid_condition", why="conditions must be index comparisons"),
-        pre("call:Alpha_Rename", why="every copy must be renamed apart", props=("C04",)),
+        count("Alpha_Rename", 2, why="the then-copy and the else-copy must each be renamed apart", props=("C04",)),
     ],
     "DoFuseLoop": [
         pre("guard:next", why="the loops must be adjacent"),
@@ -318,6 +323,15 @@ def rule_guard(ctx, prop: str) -> RuleResult:
             sites = an.site_facts()
             res.instances += 1
             res.nontrivial += 1
+            if o.kind == "count":
+                nm_ = o.facts[0][5:]
+                k = sum(1 for n in f.all_nodes() if isinstance(n, ast.Call) and last_name(n) == nm_)
+                ok = k >= int(o.scope)
+                res.ob(ok)
+                res.sample(f"{nm}: {k} call sites of {nm_} (needs {o.scope})")
+                if not ok:
+                    res.add(Finding("GUARD", f.file, f.lineno, nm, f"count:{nm_}", f"{nm}: {o.why} — only {k} call(s) of {nm_} remain, {o.scope} needed"))
+                continue
             if o.kind == "has":
                 calls = {last_name(n) for n in f.all_nodes() if isinstance(n, ast.Call)}
                 guards: Set[str] = set()
